@@ -184,7 +184,7 @@ class DrillholeScenario(BaseScenario):
                 raise Violation("C18", "collar_differs", f"{where}: collar {got}, assigned {st['collar']}", discr)
             zero = np.asarray(well.desurvey(np.array([0.0])), dtype=float)[0]
             if not close(zero, st["collar"]):
-                raise Violation("C18", "zero_depth_not_collar", f"{where}: desurvey(0) = {zero.tolist()}, collar {st['collar']}", {**discr, "poison": st["poison"] is not None and not np.all(np.isfinite(zero))})
+                raise Violation("C18", "zero_depth_not_collar", f"{where}: desurvey(0) = {zero.tolist()}, collar {st['collar']}", {**discr, "poison": bool(st["poison"] is not None and not np.all(np.isfinite(zero)))})
         arr = self.arrays(well)
         verts, cells, logs = arr["vertices"], arr["cells"], arr["logs"]
         depth_log = logs.get("DEPTH")
